@@ -667,14 +667,15 @@ def primary_cases(tier, rng):
     """
     ENUMERATED scope "Primary-tag mode": the maps of precede_cases with 2 or 3 haplotypes (2 painted chromosomes per
     haplotype in alternating haplotype order, one unplaced scaffold per haplotype named <HAP>_SCAFFOLD_<n>, at texel size 10
-    an absent input scaffold shorter than a texel), where the FIRST painted Pretext scaffold of one haplotype - each
-    haplotype in turn, so the curated haplotype is the first, second or third one of the map - carries the Primary tag
-    (on all / the first / the last of its pieces), and ONE piece tagged Haplotig, Contaminant or FalseDuplicate in every
-    position of precede_cases (own scaffold unpainted / painted in front of each painted scaffold, tail / middle / cut-off
-    piece of each painted scaffold) PLUS one piece of each of the two other kinds in a seeded position, so every map holds
-    all three kinds; without and with Target mode.  Every case runs the command line.
-    quick: one haplotype order, Target mode / texel size / output name rotate; thorough: every rotation of the haplotype
-    order, Target off and on, texel sizes 1 and 10, 2 seeded repetitions.
+    an absent input scaffold shorter than a texel), where the FIRST painted Pretext scaffold of one haplotype (the first,
+    second or third haplotype of the map) carries the Primary tag (on all / the first / the last of its pieces), and ONE
+    piece tagged Haplotig, Contaminant or FalseDuplicate in every position of precede_cases (own scaffold unpainted /
+    painted in front of each painted scaffold, tail / middle / cut-off piece of each painted scaffold) PLUS one piece of
+    each of the two other kinds in a seeded position, so every map holds all three kinds; without and with Target mode.
+    Every case runs the command line.
+    quick: one haplotype order, the curated haplotype / Target mode / texel size / output name rotate with the position and
+    the kind of tag, three-haplotype maps: every second position; thorough: each haplotype curated in turn for every
+    position, every rotation of the haplotype order, Target off and on, texel size 1 or 10 (seeded).
     """
     quick = tier == "quick"
     n = 0
@@ -683,16 +684,18 @@ def primary_cases(tier, rng):
         n_painted = 2 * n_hap
         places = [(kind, j) for kind in ("own", "ownp") for j in range(n_painted + 1)] + [(kind, j) for kind in ("tail", "mid", "cut") for j in range(n_painted)]
         for rot in [0] if quick else range(n_hap):
-            for special in pg.SPECIAL_TAGS:
-                for place in places:
-                    for primary in range(n_hap):
-                        for target in ((False, True)[(n // n_hap) % 2],) if quick else (False, True):
-                            for _rep in range(1 if quick else 2):
-                                for bpt in ((1.0, 10.0)[n % 2],) if quick else (1.0, 10.0):
-                                    n += 1
-                                    haps = tag_sets[n % len(tag_sets)]
-                                    more = [(s, rng.choice(places)) for s in pg.SPECIAL_TAGS if s != special]
-                                    yield precede_case(haps, rot, special, place, target, bpt, None, rng, n, primary=primary, more=more)
+            for si, special in enumerate(pg.SPECIAL_TAGS):
+                for pi, place in enumerate(places):
+                    if quick and n_hap == 3 and (pi + si) % 2:
+                        continue  # quick: every second position of the three-haplotype maps (alternating with the kind of tag)
+                    # quick: the curated haplotype and Target mode rotate with the position and the kind of tag
+                    for primary in ((pi + si) % n_hap,) if quick else range(n_hap):
+                        for target in ((False, True)[(pi // n_hap + si) % 2],) if quick else (False, True):
+                            n += 1
+                            bpt = (1.0, 10.0)[n % 2] if quick else rng.choice((1.0, 10.0))
+                            haps = tag_sets[n % len(tag_sets)]
+                            more = [(s, rng.choice(places)) for s in pg.SPECIAL_TAGS if s != special]
+                            yield precede_case(haps, rot, special, place, target, bpt, None, rng, n, primary=primary, more=more)
 
 
 def precede_case(haps, rot, special, place, target, bpt, second, rng, n, primary=None, more=()):
